@@ -15,7 +15,8 @@ Proof. intros (H1 & H2 & H3 & H4). split; [assumption|]. split; [assumption|]. n
 Definition rom20_concl (r : rom20_out) (y : sb20in) (file : list N) : Prop :=
   t_secs r = spec_of (y_secs y) /\ t_signed r = y_signed y /\ t_pv r = y_pv y /\ t_cv r = y_cv y /\
   t_build r = y_build y /\ t_ts r = y_ts y /\ t_sig r = sigpart y /\
-  file = firstn (t_signed_len r) file ++ sigpart y /\ length (firstn (t_signed_len r) file) = t_signed_len r.
+  file = firstn (t_signed_len r) file ++ sigpart y /\ length (firstn (t_signed_len r) file) = t_signed_len r /\
+    t_boot_index r = 0%nat /\ hdr_first_boot_section_id file = option_map s_uid (hd_error (y_secs y)).
 
 (* ---------------- cipher-parametric statements *)
 Lemma rom20_build_thm :
@@ -25,7 +26,8 @@ Lemma rom20_build_thm :
   exists r, rom20 E D (y_sigsize y) (y_kek y) file = Some r /\
     t_secs r = spec_of (y_secs y) /\ t_signed r = y_signed y /\ t_pv r = y_pv y /\ t_cv r = y_cv y /\
     t_build r = y_build y /\ t_ts r = y_ts y /\ t_sig r = sigpart y /\
-    file = firstn (t_signed_len r) file ++ sigpart y /\ length (firstn (t_signed_len r) file) = t_signed_len r.
+    file = firstn (t_signed_len r) file ++ sigpart y /\ length (firstn (t_signed_len r) file) = t_signed_len r /\
+    t_boot_index r = 0%nat /\ hdr_first_boot_section_id file = option_map s_uid (hd_error (y_secs y)).
 Proof.
   intros E D HE HD y file W H.
   exact (rom20_build_lemma E D HE (fun _ _ => True) (KW_of_DE E D HE HD) y file W I H).
@@ -85,7 +87,8 @@ Lemma rom20_build_aes_thm :
   exists r, rom20_aes (y_sigsize y) (y_kek y) file = Some r /\
     t_secs r = spec_of (y_secs y) /\ t_signed r = y_signed y /\ t_pv r = y_pv y /\ t_cv r = y_cv y /\
     t_build r = y_build y /\ t_ts r = y_ts y /\ t_sig r = sigpart y /\
-    file = firstn (t_signed_len r) file ++ sigpart y /\ length (firstn (t_signed_len r) file) = t_signed_len r.
+    file = firstn (t_signed_len r) file ++ sigpart y /\ length (firstn (t_signed_len r) file) = t_signed_len r /\
+    t_boot_index r = 0%nat /\ hdr_first_boot_section_id file = option_map s_uid (hd_error (y_secs y)).
 Proof.
   intros y file W K H.
   exact (rom20_build_lemma sbE sbD sbE_length aes_dom KW_aes y file W (aes_dom_of20 y K) H).
@@ -113,6 +116,33 @@ Lemma counter_agreement20_aes_thm :
 Proof.
   intros y file W K H.
   exact (counter_agreement20_lemma sbE sbD sbE_length aes_dom KW_aes y file W (aes_dom_of20 y K) H).
+Qed.
+
+(* ---------------- SB 2.1: first boot section *)
+Lemma rom21_first_boot_section_thm :
+  forall (E D : list N -> list N -> list N),
+  (forall k b, length (E k b) = 16%nat) -> (forall k b, length b = 16%nat -> D k (E k b) = b) ->
+  forall x file, wf_sbin x -> build21_gen E true x = Ok file ->
+  exists r, rom21_boot E D (x_sigsize x) (x_kek x) file = Some (r, 0%nat) /\
+     r_secs r = spec_of (x_secs x) /\ r_flags r = x_flags x /\ r_pv r = x_pv x /\ r_cv r = x_cv x /\
+     r_build r = x_build x /\ r_ts r = x_ts x /\ r_major r = 2 /\ r_minor r = 1 /\
+     r_sig r = x_sig x /\ r_signed_len r = signed_len_of x /\
+     hdr_first_boot_section_id file = option_map s_uid (hd_error (x_secs x)).
+Proof.
+  intros E D HE HD x file W H.
+  exact (rom21_boot_build_lemma E D HE (fun _ _ => True) (KW_of_DE E D HE HD) x file W I H).
+Qed.
+
+Lemma rom21_first_boot_section_aes_thm :
+  forall x file, wf_sbin x -> aes_keys_ok x -> build21 x = Ok file ->
+  exists r, rom21_boot_aes (x_sigsize x) (x_kek x) file = Some (r, 0%nat) /\
+     r_secs r = spec_of (x_secs x) /\ r_flags r = x_flags x /\ r_pv r = x_pv x /\ r_cv r = x_cv x /\
+     r_build r = x_build x /\ r_ts r = x_ts x /\ r_major r = 2 /\ r_minor r = 1 /\
+     r_sig r = x_sig x /\ r_signed_len r = signed_len_of x /\
+     hdr_first_boot_section_id file = option_map s_uid (hd_error (x_secs x)).
+Proof.
+  intros x file W K H.
+  exact (rom21_boot_build_lemma sbE sbD sbE_length aes_dom KW_aes x file W (aes_dom_of x K) H).
 Qed.
 
 (* ---------------- kernel-evaluated instances (the premises are satisfiable; signed and unsigned) *)
